@@ -159,6 +159,14 @@ def predict (cmd : List String) : Option String :=
   | "tr.c09" :: args => (pTr args).map fun t => let r := c09 t; if r == "ok" then skeletonCheck t else r
   | "tr.c03" :: args => (pTr args).map c03
   | "tr.c15ro" :: args => (pTr args).map c15ro
+  | ["tr.kill", _op, preU, preA, evs] => do
+    -- what another process sees after the traced process was killed: killView of the state
+    -- reached by the events that completed
+    let t : TrIn := { op := "", valid := true, admin := false, preU := ← pNode preU, preA := ← pNode preA,
+                      postU := none, postA := none, ok := false, evs := ← pEvs evs }
+    let s := run t.s0 t.evs
+    let show_ (v : View) : String := match v with | .absent => "-" | .clean b => sBytes b | .torn => "torn"
+    pure s!"kv {show_ (killView s .U)} {show_ (killView s .A)}"
   | ["path.file", base, user, adm] => do
     let ext := if ← pBool adm then Store.adminExt else Store.userExt
     pure (sBytes (Path.getFilename (← pBytes base) (← pBytes user) ext))
